@@ -177,6 +177,9 @@ func (p PExp) Expanded() PExp {
 		if strings.HasPrefix(iri, "ex.") {
 			iri = ExNS + iri[3:]
 		}
+		if strings.HasPrefix(iri, "apiExt.") {
+			iri = "http://a.ml/vocabularies/api-extension#" + iri[7:]
+		}
 		return PExp{Kind: "pred", Iri: iri, Inv: p.Inv}
 	}
 	kids := []PExp{}
